@@ -66,6 +66,11 @@ func textUnits(tid int, ascii bool) []uint16 {
 		if ascii {
 			s = "s2x"
 		}
+	case 7:
+		s = "Z\u0100\u4e00"
+		if ascii {
+			s = "ZAi"
+		}
 	case 6:
 		s = "Büro ©"
 		if ascii {
@@ -143,12 +148,12 @@ func seededProfiles(n int, seed int64) [][]byte {
 		gaps := []int{rng.Intn(4), rng.Intn(4), rng.Intn(4), rng.Intn(4)}
 		var d aDesc
 		if rng.Intn(4) == 0 {
-			d = aDesc{Kind: "v2", Tid: 1 + rng.Intn(6), Recs: []aRec{}, Place: "table", RecSize: 12}
+			d = aDesc{Kind: "v2", Tid: 1 + rng.Intn(7), Recs: []aRec{}, Place: "table", RecSize: 12}
 		} else {
 			nr := 1 + rng.Intn(40)
 			d = aDesc{Kind: "mluc", Place: places[rng.Intn(len(places))], RecSize: 12 + 4*rng.Intn(3)}
 			for r := 0; r < nr; r++ {
-				tid := 1 + rng.Intn(6)
+				tid := 1 + rng.Intn(7)
 				if tid == 5 && rng.Intn(3) != 0 {
 					tid = 1 + rng.Intn(4)
 				}
@@ -158,7 +163,7 @@ func seededProfiles(n int, seed int64) [][]byte {
 		p := aProfile{Tags: tags, NBlocks: nb, Order: order, Gaps: gaps, Desc: d}
 		// candidate identities, used only to NAME what was observed (TLC judges)
 		var cands [][2]int
-		tl := []int{0, 5, 0, 3, 3, 2000, 6}
+		tl := []int{0, 5, 0, 3, 3, 2000, 6, 3}
 		if d.Kind == "v2" {
 			cands = append(cands, [2]int{d.Tid, tl[d.Tid]})
 		} else {
@@ -227,7 +232,7 @@ func projectDesc(p aProfile, allowed [][2]int, s string, derr error) [2]int {
 	}
 	ascii := p.Desc.Kind == "v2"
 	match := func(c [2]int) bool {
-		if c[0] < 1 || c[0] > 6 {
+		if c[0] < 1 || c[0] > 7 {
 			return false
 		}
 		u := textUnits(c[0], ascii)
@@ -241,7 +246,7 @@ func projectDesc(p aProfile, allowed [][2]int, s string, derr error) [2]int {
 			return c
 		}
 	}
-	for tid := 1; tid <= 6; tid++ {
+	for tid := 1; tid <= 7; tid++ {
 		u := textUnits(tid, ascii)
 		if match([2]int{tid, len(u)}) {
 			return [2]int{tid, len(u)}
